@@ -7,6 +7,7 @@ import (
 	"encoding/json"
 	"fmt"
 	"os"
+	"strconv"
 	"strings"
 	"testing"
 	"time"
@@ -220,12 +221,14 @@ var opts = scen.GenOpts{
 		WebhookCmds: []string{"casevariant", "casevariant", "json"}, Templates: []string{"@legacy_extra.code", "@legacy_extra.name", "@(json(legacy_extra))", "@webhook.json.a", "@webhook.json.name", "@(webhook.json.A)", "@(json(webhook.json))", "@webhook.headers", "@(json(results))", "@(json(contact.fields))", "@contact.groups", "@(foo",
 			// several different deprecated context values in one expression (each logs a warning event)
 			"@(results.color.values & results.color.categories)", "@(results.color.categories_localized & results.color.values & legacy_extra)", "@(legacy_extra.name & child.run.status & results.answer.categories)"}},
-	Batch:        true,
-	StaleGroups:  true,
-	Refresh:      true,
-	Restarts:     true,
-	FrozenClocks: true,
-	MaxSteps:     4,
+	Batch:         true,
+	StaleGroups:   true,
+	Refresh:       true,
+	Restarts:      true,
+	FrozenClocks:  true,
+	NumberFormats: true,
+	Inputs:        []string{"1.234,5 francs", "3,5", "2.500", "10,000", "I moved from East to Kigali last year"},
+	MaxSteps:      4,
 }
 
 func drawScenario(rt *rapid.T) *scen.Case {
@@ -272,6 +275,15 @@ func TestDigests(t *testing.T) {
 	defer file.Close()
 	w := bufio.NewWriter(file)
 	defer w.Flush()
+	// the scenario list itself, for TestDigestAlone (executions of single scenarios in processes of their own)
+	var casesOut *bufio.Writer
+	if cp := os.Getenv("VERIF_DIGEST_OUT"); cp != "" && os.Getenv("VERIF_SHARD") == "0" {
+		if cf, err := os.Create(cp + ".cases"); err == nil {
+			defer cf.Close()
+			casesOut = bufio.NewWriterSize(cf, 1<<20)
+			defer casesOut.Flush()
+		}
+	}
 	idx := 0
 	rapid.Check(t, func(rt *rapid.T) {
 		cs := drawScenario(rt)
@@ -290,10 +302,58 @@ func TestDigests(t *testing.T) {
 		caseJSON, _ := json.Marshal(cs)
 		idx++
 		fmt.Fprintf(w, "%d %x %x\n", idx, sha256.Sum256(caseJSON), h.Sum(nil))
+		if casesOut != nil {
+			casesOut.Write(caseJSON)
+			casesOut.WriteByte('\n')
+		}
 		if multiKey(*cs) {
 			stats.Nontrivial(stats.Hash64("digest", string(cs.Assets), string(cs.Trigger)))
 		}
 	})
+}
+
+// TestDigestAlone executes the scenarios VERIF_DIGEST_FROM <= i < VERIF_DIGEST_TO (1-based positions, in reverse order) of
+// a recorded scenario list in this process without generating anything, and writes their digests. The driver starts many
+// such processes with short ranges: a scenario executed (almost) first in a fresh process must produce the same bytes as in
+// the middle of the long-lived process that generated the list - output must not depend on what the process did before.
+func TestDigestAlone(t *testing.T) {
+	casesPath, outPath := os.Getenv("VERIF_DIGEST_CASES"), os.Getenv("VERIF_DIGEST_OUT")
+	if casesPath == "" || outPath == "" {
+		t.Skip("VERIF_DIGEST_CASES not set")
+	}
+	from, _ := strconv.Atoi(os.Getenv("VERIF_DIGEST_FROM"))
+	to, _ := strconv.Atoi(os.Getenv("VERIF_DIGEST_TO"))
+	data, err := os.ReadFile(casesPath)
+	if err != nil {
+		t.Fatal(err)
+	}
+	lines := strings.Split(strings.TrimSpace(string(data)), "\n")
+	out, err := os.Create(outPath)
+	if err != nil {
+		t.Fatal(err)
+	}
+	defer out.Close()
+	for i := to - 1; i >= from; i-- {
+		if i < 1 || i > len(lines) {
+			continue
+		}
+		var cs scen.Case
+		if json.Unmarshal([]byte(lines[i-1]), &cs) != nil {
+			continue
+		}
+		stats.Eval("TestDigestAlone")
+		_, outs, f := outputs(&cs)
+		if f != nil {
+			fmt.Fprintf(out, "%d %x failure\n", i, sha256.Sum256([]byte(lines[i-1])))
+			continue
+		}
+		h := sha256.New()
+		for _, o := range outs {
+			h.Write([]byte(o))
+			h.Write([]byte{0})
+		}
+		fmt.Fprintf(out, "%d %x %x\n", i, sha256.Sum256([]byte(lines[i-1])), h.Sum(nil))
+	}
 }
 
 var _ flows.Session
